@@ -230,6 +230,7 @@ impl<'a> ModelRun<'a> {
         let mc = self.st.contracts.get(contract).ok_or(())?;
         let code_tag = mc.code_id as u8;
         let own_store: Dump = mc.store.iter().map(|(k, v)| (k.clone(), v.clone())).collect();
+        let reply_ok: Option<bool> = reply.as_ref().map(|r| r.ok);
         let rec = TraceRec {
             kind,
             code_tag,
@@ -258,7 +259,7 @@ impl<'a> ModelRun<'a> {
                 }
             }
         }
-        if nd.fail {
+        if nd.fail || matches!((nd.fail_when, reply_ok), (1, Some(true)) | (2, Some(false))) {
             return Err(());
         }
         if invalid_response(nd) != (self.flip_validity_of == Some(idx)) {
